@@ -78,7 +78,7 @@ def stageP (T : Terminal) (k : Nat) (c r : Nat) (pw : Bool) (p : Pen) (d : List 
     pendingWrap := pw,
     topMargin := if 8 ≤ k then T.topMargin else 0,
     bottomMargin := if 8 ≤ k then T.bottomMargin else T.rows - 1,
-    savedCtx := {}, alternateSavedCtx := {}, dirtyLines := d, xtwinops := false }
+    savedCtx := if 3 ≤ k then T.savedCtx else {}, alternateSavedCtx := {}, dirtyLines := d, xtwinops := false }
 
 /-- what is assumed of the dumped terminal -/
 structure PrimOK (T : Terminal) : Prop where
@@ -115,25 +115,128 @@ theorem stage_tabs (c r : Nat) (pw : Bool) (p : Pen) (d : List Bool) :
       simp only [stageP, he]; rfl
     rw [this]; exact Feeds.nil _
 
+/-! #### dump step 3: the saved context of the primary screen -/
+
+/-- stage 2 with auto-wrap, origin mode and the saved context overridden (the modes are switched
+    temporarily while the context is configured and saved) -/
+def stageX (T : Terminal) (aw om : Bool) (sc : SavedCtx) (c r : Nat) (pw : Bool) (p : Pen) (d : List Bool) : Terminal :=
+  { stageP T 2 c r pw p d with autoWrapMode := aw, originMode := om, savedCtx := sc }
+
+omit h in
+theorem stageX_2 (c r : Nat) (pw : Bool) (p : Pen) (d : List Bool) :
+    stageP T 2 c r pw p d = stageX T true false {} c r pw p d := rfl
+
+omit h in
+theorem stageX_3 (c r : Nat) (pw : Bool) (p : Pen) (d : List Bool) :
+    stageP T 3 c r pw p d = stageX T true false T.savedCtx c r pw p d := rfl
+
+omit h in
+theorem x_awOff (aw' om : Bool) (sc : SavedCtx) (c r : Nat) (pw : Bool) (p : Pen) (d : List Bool) :
+    Feeds (if !aw' then [csi, 0x3f, 0x37, 0x6c] else []) (stageX T true om sc c r pw p d) (stageX T aw' om sc c r pw p d) := by
+  cases aw' with
+  | false => exact (feeds_autoWrapOff _).to rfl
+  | true => exact Feeds.nil _
+
+omit h in
+theorem x_awOn (aw' om : Bool) (sc : SavedCtx) (c r : Nat) (pw : Bool) (p : Pen) (d : List Bool) :
+    Feeds (if !aw' then [csi, 0x3f, 0x37, 0x68] else []) (stageX T aw' om sc c r pw p d) (stageX T true om sc c r pw p d) := by
+  cases aw' with
+  | false => exact (feeds_autoWrapOn _).to rfl
+  | true => exact Feeds.nil _
+
+theorem x_omOn (aw om' : Bool) (sc : SavedCtx) (c r : Nat) (pw : Bool) (p : Pen) (d : List Bool) :
+    ∃ c' r' pw', Feeds (if om' then [csi, 0x3f, 0x36, 0x68] else []) (stageX T aw false sc c r pw p d)
+      (stageX T aw om' sc c' r' pw' p d) := by
+  have ht := TOK.of_TInv h.inv
+  cases om' with
+  | true => exact ⟨0, 0, false, (feeds_originOn (stageX T aw false sc c r pw p d) ht.c1).to rfl⟩
+  | false => exact ⟨c, r, pw, Feeds.nil _⟩
+
+theorem x_omOff (aw om' : Bool) (sc : SavedCtx) (c r : Nat) (pw : Bool) (p : Pen) (d : List Bool) :
+    ∃ c' r' pw', Feeds (if om' then [csi, 0x3f, 0x36, 0x6c] else []) (stageX T aw om' sc c r pw p d)
+      (stageX T aw false sc c' r' pw' p d) := by
+  have ht := TOK.of_TInv h.inv
+  cases om' with
+  | true => exact ⟨0, 0, false, (feeds_originOff (stageX T aw true sc c r pw p d) ht.c1).to rfl⟩
+  | false => exact ⟨c, r, pw, Feeds.nil _⟩
+
+theorem x_cup (aw om : Bool) (sc : SavedCtx) (c r : Nat) (pw : Bool) (p : Pen) (d : List Bool) (col row : Nat)
+    (hcol : col < T.cols) (hrow : row < T.rows) :
+    Feeds (cupSeq (row + 1) (col + 1)) (stageX T aw om sc c r pw p d) (stageX T aw om sc col row false p d) := by
+  have ht := TOK.of_TInv h.inv
+  have f := feeds_cup (stageX T aw om sc c r pw p d) row col ht.c1 ht.r1 (by have := h.rows; omega) (by have := h.cols; omega)
+  refine f.to ?_
+  have e1 : min col (T.cols - 1) = col := by omega
+  have e2 : min row (T.rows - 1) = row := by omega
+  cases om <;> simp [stageX, stageP, e1, e2]
+
+theorem x_decsc (aw om : Bool) (sc : SavedCtx) (col row : Nat) (pw : Bool) (p : Pen) (d : List Bool)
+    (hcol : col < T.cols) :
+    Feeds [0x1b, 0x37] (stageX T aw om sc col row pw p d)
+      (stageX T aw om ⟨col, row, p, om, aw⟩ col row pw p d) := by
+  have ht := TOK.of_TInv h.inv
+  refine (feeds_decsc (stageX T aw om sc col row pw p d) ht.c1).to ?_
+  have e1 : min col (T.cols - 1) = col := by omega
+  simp [stageX, stageP, e1]
+
+/-- **dump step 3** for the primary screen's own saved context: temporary modes, CUP, pen, `ESC 7`,
+    modes back -/
+theorem stage_ctx (hsp : PenOK T.savedCtx.pen) (c r : Nat) (pw : Bool) (p : Pen) (d : List Bool) :
+    ∃ s c' r' pw' p', dumpCtx T.savedCtx = some s
+      ∧ Feeds s (stageP T 2 c r pw p d) (stageP T 3 c' r' pw' p' d) := by
+  have ht := TOK.of_TInv h.inv
+  by_cases hdef : T.savedCtx.isDefault = true
+  · have e := ctx_default_eq _ hdef hsp
+    refine ⟨[], c, r, pw, p, by simp [dumpCtx, hdef], ?_⟩
+    have : stageP T 3 c r pw p d = stageP T 2 c r pw p d := by simp only [stageP, e]; rfl
+    rw [this]; exact Feeds.nil _
+  · obtain ⟨hcol, hrow⟩ := ht.sctx
+    have f1 := x_awOff (T := T) T.savedCtx.autoWrapMode false {} c r pw p d
+    obtain ⟨c2, r2, pw2, f2⟩ := x_omOn h T.savedCtx.autoWrapMode T.savedCtx.originMode {} c r pw p d
+    have f3 := x_cup h T.savedCtx.autoWrapMode T.savedCtx.originMode {} c2 r2 pw2 p d _ _ hcol hrow
+    obtain ⟨pd, hpd, f4⟩ := feeds_pen T.savedCtx.pen hsp
+      (stageX T T.savedCtx.autoWrapMode T.savedCtx.originMode {} T.savedCtx.cursorCol T.savedCtx.cursorRow false p d)
+    have f5 := x_decsc h T.savedCtx.autoWrapMode T.savedCtx.originMode {} T.savedCtx.cursorCol T.savedCtx.cursorRow
+      false T.savedCtx.pen d hcol
+    have esc : (⟨T.savedCtx.cursorCol, T.savedCtx.cursorRow, T.savedCtx.pen, T.savedCtx.originMode,
+        T.savedCtx.autoWrapMode⟩ : SavedCtx) = T.savedCtx := rfl
+    rw [esc] at f5
+    have f6 := x_awOn (T := T) T.savedCtx.autoWrapMode T.savedCtx.originMode T.savedCtx T.savedCtx.cursorCol
+      T.savedCtx.cursorRow false T.savedCtx.pen d
+    obtain ⟨c7, r7, pw7, f7⟩ := x_omOff h true T.savedCtx.originMode T.savedCtx T.savedCtx.cursorCol
+      T.savedCtx.cursorRow false T.savedCtx.pen d
+    refine ⟨(if !T.savedCtx.autoWrapMode then [csi, 0x3f, 0x37, 0x6c] else [])
+        ++ (if T.savedCtx.originMode then [csi, 0x3f, 0x36, 0x68] else [])
+        ++ cupSeq (T.savedCtx.cursorRow + 1) (T.savedCtx.cursorCol + 1) ++ pd ++ [0x1b, 0x37]
+        ++ (if !T.savedCtx.autoWrapMode then [csi, 0x3f, 0x37, 0x68] else [])
+        ++ (if T.savedCtx.originMode then [csi, 0x3f, 0x36, 0x6c] else []), c7, r7, pw7, T.savedCtx.pen, ?_, ?_⟩
+    · simp only [dumpCtx, hdef, Bool.false_eq_true, if_false, hpd]
+    · rw [stageX_2, stageX_3]
+      have f4' : Feeds pd (stageX T T.savedCtx.autoWrapMode T.savedCtx.originMode {} T.savedCtx.cursorCol
+          T.savedCtx.cursorRow false p d) (stageX T T.savedCtx.autoWrapMode T.savedCtx.originMode {}
+          T.savedCtx.cursorCol T.savedCtx.cursorRow false T.savedCtx.pen d) := f4.to rfl
+      exact Feeds.cast (f1.append (f2.append (f3.append (f4'.append (f5.append (f6.append f7))))))
+        (by simp [List.append_assoc])
+
 omit h in
 theorem stage_sgr0 (c r : Nat) (pw : Bool) (p : Pen) (d : List Bool) :
-    Feeds [0x1b, 0x5b, 0x6d] (stageP T 2 c r pw p d) (stageP T 2 c r pw {} d) :=
+    Feeds [0x1b, 0x5b, 0x6d] (stageP T 3 c r pw p d) (stageP T 3 c r pw {} d) :=
   feeds_sgr0 _
 
 theorem stage_origin (c r : Nat) (pw : Bool) (p : Pen) (d : List Bool) :
     ∃ c' r' pw', Feeds (if T.originMode then [csi, 0x3f, 0x36, 0x68] else [])
-      (stageP T 2 c r pw p d) (stageP T 7 c' r' pw' p d) := by
+      (stageP T 3 c r pw p d) (stageP T 7 c' r' pw' p d) := by
   have ht := TOK.of_TInv h.inv
   cases ho : T.originMode with
   | true =>
     simp only [if_true]
-    have f := feeds_originOn (stageP T 2 c r pw p d) ht.c1
+    have f := feeds_originOn (stageP T 3 c r pw p d) ht.c1
     refine ⟨0, 0, false, ?_⟩
     exact (f).to (by simp only [stageP, ho]; rfl)
   | false =>
     simp only [Bool.false_eq_true, if_false]
     refine ⟨c, r, pw, ?_⟩
-    have : stageP T 7 c r pw p d = stageP T 2 c r pw p d := by simp only [stageP, ho]; rfl
+    have : stageP T 7 c r pw p d = stageP T 3 c r pw p d := by simp only [stageP, ho]; rfl
     rw [this]; exact Feeds.nil _
 
 theorem stage_margins (c r : Nat) (pw : Bool) (p : Pen) (d : List Bool) :
@@ -342,7 +445,7 @@ theorem dirty_clear_eq (a b : List Bool) (h : a.length = b.length) : Dirty.clear
   · rw [List.getElem?_eq_getElem hi, List.getElem?_eq_getElem (by omega)]; rfl
   · rw [List.getElem?_eq_none (by omega), List.getElem?_eq_none (by omega)]
 
-theorem normT_stageP_final (T : Terminal) (h : PrimOK T) (hs : T.savedCtx = {}) (ha : T.alternateSavedCtx = {})
+theorem normT_stageP_final (T : Terminal) (h : PrimOK T) (ha : T.alternateSavedCtx = {})
     (d : List Bool) (hd : d.length = T.rows) :
     normT (stageP T 17 T.cursor.col T.cursor.row T.pendingWrap T.pen d) = normT T := by
   have ht := TOK.of_TInv h.inv
@@ -353,8 +456,8 @@ theorem normT_stageP_final (T : Terminal) (h : PrimOK T) (hs : T.savedCtx = {}) 
   have hp := h.prim
   obtain ⟨c, r, ⟨sb, vw, bc, br, lim, tn⟩, ob, abt, sl, ⟨cc, cr, cv⟩, pen, ⟨cs1, cs2⟩, acs, tabs, im, om, aw, nl, ck, pw, tm, bm,
     sc, asc, dl, xt⟩ := T
-  simp only at hs ha hdl hbc hbr hx hp
-  subst hs ha hbc hbr hx hp
+  simp only at ha hdl hbc hbr hx hp
+  subst ha hbc hbr hx hp
   simp only [normT, stageP, normB, hdl, clampCtx, Nat.reduceLeDiff, if_true]
 
 /-! ### assembly -/
@@ -370,11 +473,10 @@ theorem freshT_DMode (cols rows : Nat) (hr : 1 ≤ rows) : DMode (freshT cols ro
   ⟨rfl, by show rows - 1 + 1 = rows; omega, rfl, rfl, ⟨rfl, rfl⟩⟩
 
 /-- **`Terminal.dump` replayed, primary screen, default saved contexts.** -/
-theorem dump_primary (T : Terminal) (h : PrimOK T) (hs : T.savedCtx.isDefault = true) (hsp : PenOK T.savedCtx.pen)
+theorem dump_primary (T : Terminal) (h : PrimOK T) (hsp : PenOK T.savedCtx.pen)
     (ha : T.alternateSavedCtx.isDefault = true) (hap : PenOK T.alternateSavedCtx.pen) :
     ∃ d t', T.dump = some d ∧ Feeds d (freshT T.cols T.rows none) t' ∧ normT t' = normT T := by
   have ht := TOK.of_TInv h.inv
-  have hs' := ctx_default_eq _ hs hsp
   have ha' := ctx_default_eq _ ha hap
   have h0 := freshT_TInv T.cols T.rows ht.c1 ht.r1
   -- step 1: the buffer
@@ -387,12 +489,13 @@ theorem dump_primary (T : Terminal) (h : PrimOK T) (hs : T.savedCtx.isDefault = 
   rw [et1] at f1 i1
   -- the other steps
   obtain ⟨c2, pw2, f2⟩ := stage_tabs h t1.cursor.col t1.cursor.row t1.pendingWrap t1.pen t1.dirtyLines
-  have f3 := stage_sgr0 (T := T) c2 t1.cursor.row pw2 t1.pen t1.dirtyLines
-  obtain ⟨c7, r7, pw7, f7⟩ := stage_origin h c2 t1.cursor.row pw2 {} t1.dirtyLines
+  obtain ⟨s3, c3, r3, pw3, p3, hs3, f3a⟩ := stage_ctx h hsp c2 t1.cursor.row pw2 t1.pen t1.dirtyLines
+  have f3 := stage_sgr0 (T := T) c3 r3 pw3 p3 t1.dirtyLines
+  obtain ⟨c7, r7, pw7, f7⟩ := stage_origin h c3 r3 pw3 {} t1.dirtyLines
   obtain ⟨c8, r8, pw8, f8⟩ := stage_margins h c7 r7 pw7 {} t1.dirtyLines
   have f9 := stage_cursor h c8 r8 pw8 {} t1.dirtyLines
   have i9 : TInv (stageP T 8 (min T.cursor.col (T.cols - 1)) T.cursor.row false {} t1.dirtyLines) = true :=
-    f9.TInv (f8.TInv (f7.TInv (f3.TInv (f2.TInv i1))))
+    f9.TInv (f8.TInv (f7.TInv (f3.TInv (f3a.TInv (f2.TInv i1)))))
   obtain ⟨s9, p9, d9, hs9, f9b⟩ := stage_pending h {} t1.dirtyLines i9
   obtain ⟨pd, hpd, f10⟩ := stage_pen h T.cursor.col T.cursor.row T.pendingWrap p9 d9
   have f10b := stage_vis h T.cursor.col T.cursor.row T.pendingWrap T.pen d9
@@ -403,13 +506,13 @@ theorem dump_primary (T : Terminal) (h : PrimOK T) (hs : T.savedCtx.isDefault = 
   have f15 := stage_autoWrap h T.cursor.col T.cursor.row T.pendingWrap T.pen d9
   have f16 := stage_newLine h T.cursor.col T.cursor.row T.pendingWrap T.pen d9
   have f17 := stage_cursorKeys h T.cursor.col T.cursor.row T.pendingWrap T.pen d9
-  have fall := f1.append (f2.append (f3.append (f7.append (f8.append (f9.append (f9b.append (f10.append
-    (f10b.append (f11.append (f12.append (f13.append (f14.append (f15.append (f16.append f17))))))))))))))
+  have fall := f1.append (f2.append (f3a.append (f3.append (f7.append (f8.append (f9.append (f9b.append (f10.append
+    (f10b.append (f11.append (f12.append (f13.append (f14.append (f15.append (f16.append f17)))))))))))))))
   have ifin := fall.TInv h0
   have hdl : d9.length = T.rows := (TOK.of_TInv ifin).dirty
-  refine ⟨_, _, ?_, fall, normT_stageP_final T h hs' ha' d9 hdl⟩
+  refine ⟨_, _, ?_, fall, normT_stageP_final T h ha' d9 hdl⟩
   have hctx : dumpCtx ({} : SavedCtx) = some [] := by decide
-  simp only [Terminal.dump, h.prim, primaryBuffer, hd1, hs', ha', hctx, hpd, csub1 ht.r1, if_true,
+  simp only [Terminal.dump, h.prim, primaryBuffer, hd1, hs3, ha', hctx, hpd, csub1 ht.r1, if_true,
     reduceCtorEq, if_false, SavedCtx.isDefault, Bool.false_eq_true, Bool.or_self, Bool.not_true]
   rcases hs9 with ⟨hge, line, cell, pd', hl, hc, hpd', rfl⟩ | ⟨hge, rfl⟩
   · simp [Pen.isDefault, Pen.isItalic, Pen.isUnderline, Pen.isStrikethrough, Pen.isBlink, Pen.isInverse, csi,
